@@ -21,6 +21,12 @@ closure, so that an edit of the Python source re-opens the proof.
 
 Anything outside the subset raises `Untranslatable`, which the check treats as
 a broken obligation.
+
+Second half of this file: `Tr` / `translate_function`, the STATEMENT-LEVEL
+translator (whole functions: loops, early return, exceptions, tuples, text,
+methods, generators) used by `harness/corr/_tr.py`; its table of constructs is
+in the comment above `class Tr`. The hand-written model is proved EQUAL to its
+output in `lean/PyGqlModel/Props/Cxx_tr.lean`.
 """
 import ast
 import re
@@ -235,6 +241,10 @@ def header(origin):
 #   methods (cls=...)                        self.X -> variable self_X; attributes listed in self_state are returned with the result
 #   sorted(xs, key=lambda a: k)              Py.sortedBy lt (fun a => k) xs (stable insertion sort; `lt` from the spec)
 #   zip, all/any(<generator>)                List.zip, List.all / List.any (pure bodies)
+#   def g(...): ... yield e ...              generator: `yield e` appends to a hidden accumulator, the function returns the list of
+#                                            everything yielded (the generator run to its end)
+#   [a, b], self.m()                         list display; another translated method run on the current attribute values
+#   <expr> listed in the spec's `whole`      read as the spec says (operations on dynamically typed values: `x is None`, `n != x`)
 #   f(...), obj.m(...), isinstance, attrs    only through the tables of the spec (`externals`, `isinstance_map`, `attrs`,
 #                                            `consts`); an external marked partial is Except-valued
 #
@@ -322,7 +332,7 @@ def _codes(s):
 
 class Tr:
     def __init__(self, lean_name, env, ret_ty, externals=None, isinstance_map=None, attrs=None, consts=None, fuel=None,
-                 generic_exc=False, whole=None):
+                 generic_exc=False, whole=None, methods=None, implicit=""):
         self.name = lean_name
         # generic_exc: the function is abstracted over the exception type `ε` with `exc : String → ε` naming built-in classes
         self.generic = generic_exc
@@ -330,6 +340,12 @@ class Tr:
         # whole-expression patterns of the spec: source text of an expression -> (lean text, type[, partial]); for
         # operations on dynamically typed values (`x is None`, `n != x`, `not x`) whose meaning the spec supplies
         self.whole = whole or {}
+        # other translated methods of the same class called as statements: python method name -> lean function taking the
+        # `self_` variables below and returning ((), the mutated ones)
+        self.methods = methods or {}
+        # implicit binders (type parameters) of the spec, repeated on the auxiliary loop definitions
+        self.implicit = (" " + implicit) if implicit else ""
+        self.self_params, self.self_state = [], []
         self.exc_ty = "ε" if generic_exc else "String"
         self.env = dict(env)            # python variable -> type
         self.ret_ty = ret_ty
@@ -487,6 +503,11 @@ class Tr:
                 if x.ty == arg_ty:
                     return self.lift([x], lambda ts: ("(%s %s)" % (fn, ts[0]), res_ty))
             raise Untranslatable("attribute " + src)
+        if isinstance(e, ast.List) and e.elts:
+            es = [self.expr(x) for x in e.elts]
+            if any(x.ty != es[0].ty for x in es):
+                raise Untranslatable("list display of mixed types")
+            return self.lift(es, lambda ts: ("[" + ", ".join(ts) + "]", TList(es[0].ty)))
         if isinstance(e, ast.Tuple):
             es = [self.expr(x) for x in e.elts]
             return self.lift(es, lambda ts: ("(" + ", ".join(ts) + ")", ("Tuple",) + tuple(x.ty for x in es)))
@@ -839,6 +860,13 @@ class Tr:
                     return self.bind(E(self.prim("(Py.popLast %s)" % xs.text), None, True), "(_, %s)" % xs.text, cont())
                 if len(args) == 1 and isinstance(args[0], ast.Constant) and args[0].value == 0:
                     return self.bind(E(self.prim("(Py.pop0 %s)" % xs.text), None, True), "(_, %s)" % xs.text, cont())
+        if isinstance(s, ast.Expr) and isinstance(s.value, ast.Call) and isinstance(s.value.func, ast.Name) \
+                and s.value.func.id.startswith("self_") and s.value.func.id[5:] in self.methods \
+                and not s.value.args and not s.value.keywords:
+            # self.m(): another translated method run on the current attributes; its exceptions propagate
+            self.constructs.add("self.m() -> call of the translated method on the current attribute values")
+            call = "(%s)" % " ".join([self.methods[s.value.func.id[5:]]] + self.self_params)
+            return self.bind(E(call, None, True), "(_, %s)" % ", ".join(self.self_state), cont())
         if isinstance(s, ast.If):
             c = self.test(s.test)
             v = self.fresh() if c.partial else None
@@ -922,8 +950,8 @@ class Tr:
         body = self.block(s.body, lambda: call_rec)
         self.in_loop, self._brk, self._cnt = saved
         binders = "".join(" (%s : %s)" % (v, lean_ty(self.env[v])) for v in free)
-        sig = "def %s%s : %s → %sPy.Flow %s %s" % (
-            fname, binders, _atom(lean_ty(it.ty)), "".join(_atom(lean_ty(self.env[v])) + " → " for v in state),
+        sig = "def %s%s%s : %s → %sPy.Flow %s %s" % (
+            fname, self.implicit, binders, _atom(lean_ty(it.ty)), "".join(_atom(lean_ty(self.env[v])) + " → " for v in state),
             self.exc_ty + " " + _atom(self._state_ty(state)), _atom(lean_ty(self.full_ret_ty or self.ret_ty)))
         stpat = "".join(", " + v for v in state)
         self.aux.append("%s\n  | []%s => .fall %s\n  | %s :: rest__%s =>\n%s\n" % (
@@ -953,8 +981,8 @@ class Tr:
             body = self.bind(c, v, body)
         self.in_loop, self._brk, self._cnt = saved
         binders = "".join(" (%s : %s)" % (x, lean_ty(self.env[x])) for x in free)
-        sig = "def %s%s : Nat → %sPy.Flow %s %s" % (
-            fname, binders, "".join(_atom(lean_ty(self.env[x])) + " → " for x in state),
+        sig = "def %s%s%s : Nat → %sPy.Flow %s %s" % (
+            fname, self.implicit, binders, "".join(_atom(lean_ty(self.env[x])) + " → " for x in state),
             self.exc_ty + " " + _atom(self._state_ty(state)), _atom(lean_ty(self.full_ret_ty or self.ret_ty)))
         stpat = "".join(", " + x for x in state)
         self.aux.append("%s\n  | 0%s => .raise OUTOFFUEL__\n  | fuel__ + 1%s =>\n%s\n" % (sig, stpat, stpat, _ind(body, 4)))
@@ -1037,6 +1065,22 @@ def translate_function(source, name, lean_name, cls=None, params=None, binders=N
             n.id += "_"
         if isinstance(n, ast.arg) and n.arg in LEAN_KEYWORDS:
             n.arg += "_"
+    # generator functions: `yield e` appends to the hidden accumulator `yield__`, which is what the function returns
+    # (the list of everything the generator yields when run to its end)
+    is_gen = any(isinstance(n, (ast.Yield, ast.YieldFrom)) for n in ast.walk(fn))
+    if is_gen:
+        class _Yield(ast.NodeTransformer):
+            def visit_Expr(self, node):
+                if isinstance(node.value, ast.Yield) and node.value.value is not None:
+                    return ast.copy_location(ast.Assign(
+                        targets=[ast.Name(id="yield__", ctx=ast.Store())],
+                        value=ast.BinOp(left=ast.Name(id="yield__", ctx=ast.Load()), op=ast.Add(),
+                                        right=ast.List(elts=[node.value.value], ctx=ast.Load()))), node)
+                return node
+        fn = _Yield().visit(fn)
+        ast.fix_missing_locations(fn)
+        if any(isinstance(n, (ast.Yield, ast.YieldFrom, ast.Return)) for n in ast.walk(fn)):
+            raise Untranslatable("yield used as an expression / yield from / return in a generator")
     if params is None:
         params = {a.arg: ann_type(a.annotation) for a in fn.args.args if a.arg != "self"}
     ret_ty = ret if ret is not None else ann_type(fn.returns)
@@ -1045,6 +1089,8 @@ def translate_function(source, name, lean_name, cls=None, params=None, binders=N
     if state:
         ret_ty = ("Tuple", inner_ret) + tuple(params[v] for v in state)
     tr = Tr(lean_name, params, ret_ty, **kw)
+    tr.self_params = [p for p in params if p.startswith("self_")]
+    tr.self_state = state
     if state:
         tr.ret_ty = inner_ret            # what `return e` must have; wrapped below
         tr.full_ret_ty = ret_ty
@@ -1052,12 +1098,20 @@ def translate_function(source, name, lean_name, cls=None, params=None, binders=N
         tr.ret = lambda text: plain_ret(text) if text == "r__" else plain_ret("(%s, %s)" % (text, ", ".join(state)))
         tr.constructs.add("method: self.X -> variable self_X; mutated attributes returned next to the result")
 
+    if is_gen:
+        tr.env["yield__"] = ret_ty
+        tr.constructs.add("generator: yield e -> append to the accumulator that is returned (the generator run to its end)")
+
     def off_the_end():
+        if is_gen:
+            return tr.ret("yield__")
         if inner_ret == "Unit":
             return tr.ret("()")
         raise Untranslatable("control reaches the end of %s without return (returns None)" % name)
 
     body = tr.block(fn.body, off_the_end)
+    if is_gen:
+        body = "(let yield__ : %s := []\n%s)" % (lean_ty(ret_ty), _ind(body, 1))
     tr.ret_ty = ret_ty
     if tr.fuel:
         raise Untranslatable("%d fuel expression(s) of the spec unused: the while loops are gone" % len(tr.fuel))
